@@ -103,8 +103,16 @@ def main():
         m["what_i_ran"] = ["git apply patch.diff in a scratch worktree of /repo HEAD; go build ./...; python3 tools/suite.py <worktree> (1863 stable tests)",
                            demo_cmd + "  (with the change: fails; after git apply -R: passes)",
                            "git -C /repo apply patch.diff; ./check.sh %s quick and gaeacheck on every claimed property; git -C /repo checkout -- ." % prop]
+        prev = {}
+        try:
+            prev = json.load(open(os.path.join(out_dir, "meta.json")))
+        except Exception:
+            pass
+        m["check_result_at_arrival"] = prev.get("check_result_at_arrival") or prev.get("check_result") or None
         m["check_result"] = {"quick_cmd_exit": log.get("quick_cmd_exit"), "caught": log["caught"], "caught_by_target_property": log["caught_by_target_property"],
                              "failed_obligations": log["caught_by"]}
+        if m["check_result_at_arrival"] is None:
+            m["check_result_at_arrival"] = m["check_result"]
         json.dump(m, open(os.path.join(out_dir, "meta.json"), "w"), indent=1)
     print(json.dumps(log, indent=1))
     return 0
